@@ -248,6 +248,17 @@ func checkC14Tok(c c14TokCase) *evid.Fail {
 				}
 			}
 		}
+		// the string-list entry points deliver the same values, one string per token (an empty decoded value included)
+		var vals []string
+		for _, tk := range t.TokenizeBuffer(text) {
+			vals = append(vals, tk.Value())
+		}
+		for name, strs := range map[string][]string{"TokenizeBufferToStrings": t.TokenizeBufferToStrings(text), "TokenizeStreamToStrings": t.TokenizeStreamToStrings(rio.NewStringScanner(text))} {
+			if fmt.Sprintf("%q", strs) != fmt.Sprintf("%q", vals) && res == nil {
+				res = evid.F("token-stream:tostrings-differs:"+c.Tok, "%s tokenizer with decoding on, text %q: token values %q, %s gives %q", c.Tok, text, vals, name, strs)
+				return
+			}
+		}
 		if hits != 1 {
 			res = evid.F("token-stream:not-one-token:"+c.Tok, "%s tokenizer (quotes %q, separators %q, setup %v): the encoded form of %q inside %q arrived as %d quoted tokens: %v", c.Tok, string(c.Quotes), string(c.Seps), c.Setup, c.S, text, hits, all)
 		}
@@ -270,6 +281,10 @@ func TestC14_RapidTokenStreams(t *testing.T) {
 		c.Seps = rapid.SliceOfNDistinct(rapid.SampledFrom(sepPool), 1, 2, func(r rune) rune { return r }).Draw(rt, "seps")
 		valid := rapid.Permutation([]string{"seps", "quotes"}).Draw(rt, "order")
 		extras := []string{"badseps", "badquotes", "eol:\n"}
+		for _, r := range c.Quotes {
+			// the tokenizer is used before it is configured: texts ending in a character whose class changes later
+			extras = append(extras, "use:"+string(r), "use:a"+string(r), "use:"+string(r)+"b"+string(r))
+		}
 		for pos := 0; pos <= 2; pos++ {
 			if rapid.IntRange(0, 2).Draw(rt, "extra") == 0 {
 				c.Setup = append(c.Setup, rapid.SampledFrom(extras).Draw(rt, "which"))
